@@ -244,17 +244,23 @@ func runC19InBubble(c c19Case) (out kit.Outcome) {
 	// (pools of two or more: one long-running caller keeps its token all the while, so the windows close while a
 	// token is held; afterwards the pool must still count it)
 	var long *vtCaller
+	// the long-running caller arrives before the cycles or in the middle of them (after some windows have closed
+	// already), and holds its token across the windows that close from then on
+	longAt := 0
 	if limit >= 2 {
-		long = w.newCaller("a", 0, 0)
-		w.start(long)
-		synctest.Wait()
-		if !long.Done || !long.OK {
-			w.unwind(2 * time.Second)
-			w.flush()
-			return kit.Viol(kind+":end-readmit", "the idle pool (limit %d) did not admit a caller", limit)
-		}
+		longAt = (c.Stack.Limit*7 + c.Stack.Backlog*5 + c.Stack.TimeoutMs) % 3 * 12 // 0, 12 or 24 cycles in (a function of the case: no generator change)
 	}
-	for i := 0; i < 26; i++ {
+	for i := 0; i < 26+longAt; i++ {
+		if limit >= 2 && i == longAt {
+			long = w.newCaller("a", 0, 0)
+			w.start(long)
+			synctest.Wait()
+			if !long.Done || !long.OK {
+				w.unwind(2 * time.Second)
+				w.flush()
+				return kit.Viol(kind+":end-readmit", "the pool (limit %d, nobody holding a token) did not admit a caller", limit)
+			}
+		}
 		cl := w.newCaller("a", 0, 0)
 		w.start(cl)
 		synctest.Wait()
@@ -291,6 +297,38 @@ func runC19InBubble(c c19Case) (out kit.Outcome) {
 		w.release(long, 0)
 		synctest.Wait()
 		for _, cl := range fresh {
+			if cl.Done && cl.OK {
+				w.release(cl, 1)
+				synctest.Wait()
+			}
+		}
+		if msg := w.unwind(c.Stack.unwindWait()); msg != "" {
+			w.flush()
+			return kit.Viol(kind+":stuck", "%s", msg)
+		}
+		// everything is back, the long-running token included (completed as a success after windows had closed while it
+		// was out): the idle pool hands out exactly its size again
+		var probe []*vtCaller
+		grantedNow = 0
+		for i := 0; i < limit+1; i++ {
+			cl := w.newCaller("a", 0, 1)
+			w.start(cl)
+			synctest.Wait()
+			if cl.Done && cl.OK {
+				grantedNow++
+			}
+			probe = append(probe, cl)
+		}
+		if grantedNow != limit {
+			w.unwind(c.Stack.unwindWait())
+			w.flush()
+			sig := ":over-limit-after-windows"
+			if grantedNow < limit {
+				sig = ":stops-serving"
+			}
+			return kit.Viol(kind+sig, "after a caller held its token across closing sampling windows and completed it, %d callers arriving at the idle pool of %d were granted at once %d times", limit+1, limit, grantedNow)
+		}
+		for _, cl := range probe {
 			if cl.Done && cl.OK {
 				w.release(cl, 1)
 				synctest.Wait()
